@@ -255,6 +255,41 @@ theorem mpc_is_lqr (sol : Solver ℝ ns nc) (S : Sys ℝ ns nc) (P : Prob ℝ ns
     (mpc sol S P dt x0 fuel st uinit).1
       = lqr sol S P dt x0 (nomOf (mpcLoop sol S P dt x0 fuel st.reset uinit ⟨uinit, none⟩ 0).1.u) := rfl
 
+/-- **iterative loop with best-so-far**: the loop runs at least once; every inner solve is linearised around
+the inputs of the previous one (`iterate`); the final solve is linearised around the inputs of an iteration
+whose cost is minimal among all iterations performed — for every stepper and any system -/
+theorem mpc_best_so_far (sol : Solver ℝ ns nc) (S : Sys ℝ ns nc) (P : Prob ℝ ns nc) (dt : Nat) (x0 : Vec ℝ ns)
+    (fuel : Nat) (st : Stepper ℝ) (uinit : Option (List (Vec ℝ nc))) :
+    let n := (mpc sol S P dt x0 (fuel+1) st uinit).2.2
+    1 ≤ n ∧ ∃ j, j < n ∧
+      (∀ i, i < n → (iterate sol S P dt x0 uinit j).cost ≤ (iterate sol S P dt x0 uinit i).cost) ∧
+      (mpc sol S P dt x0 (fuel+1) st uinit).1 = lqr sol S P dt x0 (nomOf (some (iterate sol S P dt x0 uinit j).u)) := by
+  intro n
+  have h1 : 1 ≤ n := mpcLoop_ge_one sol S P dt x0 uinit fuel st
+  have hb := (mpcLoop_best sol S P dt x0 uinit (fuel+1) st.reset 0).1
+  simp only [uAt, bestOf] at hb
+  obtain ⟨m, hm⟩ : ∃ m, n = m + 1 := ⟨n - 1, by omega⟩
+  obtain ⟨j, hj, hbj, hmin⟩ := bestOf_min sol S P dt x0 uinit m
+  refine ⟨h1, j, by omega, fun i hi => hmin i (by omega), ?_⟩
+  rw [mpc_is_lqr]
+  have hn : (mpcLoop sol S P dt x0 (fuel+1) st.reset uinit ⟨uinit, none⟩ 0).2.2 = m + 1 := hm
+  rw [hb, hn, hbj]
+
+/-- the `ReduceToBason` stepper ends the loop after at most `max(max_steps, 1)` iterations, so any larger
+iteration budget gives the same result (the driver runs the model with `max_steps + 2`) -/
+theorem mpc_fuel_irrelevant (sol : Solver ℝ ns nc) (S : Sys ℝ ns nc) (P : Prob ℝ ns nc) (dt : Nat) (x0 : Vec ℝ ns)
+    (fuel k : Nat) (st : Stepper ℝ) (uinit : Option (List (Vec ℝ nc))) (hf : max st.maxSteps 1 ≤ (fuel : Int)) :
+    mpc sol S P dt x0 fuel st uinit = mpc sol S P dt x0 (fuel + k) st uinit := by
+  unfold mpc
+  have h := mpcLoop_fuel sol S P dt x0 fuel k st.reset uinit ⟨uinit, none⟩ 0 (by
+    intro _
+    simp only [Stepper.reset]
+    constructor
+    · have : (1:Int) ≤ max st.maxSteps 1 := le_max_right _ _
+      push_cast; omega
+    · push_cast; omega)
+  simp only [h]
+
 /-- **MPC on a nonlinear (or any) system**: the returned trajectory starts at `x_init`, satisfies the system's
 own transition at every step, and the returned cost is the sum of the stage costs along it — for every
 stepper, every number of iterations, every initial input guess -/
